@@ -7,6 +7,7 @@ import (
 	"encoding/json"
 	"fmt"
 	"os"
+	"strings"
 	"runtime"
 	"sort"
 	"testing"
@@ -144,6 +145,26 @@ func TestVerif(t *testing.T) {
 func runS(t *testing.T, job *Job, res *Result, prop string, scs []*Scenario, b Bounds, maxExecPerConfig int) {
 	res.Engine = "S"
 	res.Bounds = b.String()
+	// development aids (never set by the registered commands): restrict to scenarios whose name contains a string,
+	// override the bounds
+	if f := os.Getenv("VERIF_ONLY"); f != "" {
+		var keep []*Scenario
+		for _, sc := range scs {
+			if strings.Contains(sc.Name, f) {
+				keep = append(keep, sc)
+			}
+		}
+		scs = keep
+	}
+	if f := os.Getenv("VERIF_BOUNDS"); f != "" {
+		var ob Bounds
+		fmt.Sscanf(f, "%d,%d,%d", &ob.D, &ob.S, &ob.Total)
+		b = ob
+		for _, sc := range scs {
+			sc.Bounds = nil
+		}
+		res.Bounds = b.String()
+	}
 	if job.Replay != nil {
 		sc := scs[job.Replay.Config]
 		r := runScenario(t, prop, sc, job.Replay.Devs, true)
